@@ -1,5 +1,5 @@
 """One entry per property: which rules run over which configurations."""
-from rules import fd, tls, router, decode, send, mem, recv, rset, ipcl, oss, asyn, parity
+from rules import fd, tls, router, decode, send, mem, recv, rset, ipcl, oss, asyn, parity, scratch
 
 LEVEL = {}
 
@@ -82,6 +82,8 @@ def check_C17(ctx):
         router.rule_stop_flag(ctx, cfg, F)
         router.rule_stop_nodrop(ctx, cfg, F)
         ctx.rule("STOP-FLAG").floor("proxy_senders[%s]" % cfg, 2, cfg)
+        router.rule_lock_order(ctx, cfg, F)
+        ctx.rule("LOCK-ORDER").floor("lock_sites[%s]" % cfg, 2, cfg)
     ctx.assume("the router value is dropped when run() returns (it is a temporary in the thread closure), which drops the receiver set")
 
 
@@ -107,6 +109,9 @@ def check_C07(ctx):
         router.rule_batch_order(ctx, cfg, F)
         ctx.rule("RT-ORDER").floor("select_consumers[%s]" % cfg, 2, cfg)
         rset.rule_set_id(ctx, cfg, F, "unix" if cfg == "K1" else "inprocess")
+    for cfg, F in ctx.configs(["K3"]):
+        # a routed receiver that came from a one-shot server disconnects (and its callback is dropped) only if the rendezvous keeps no sender of its channel behind
+        oss.rule_oss_own(ctx, cfg, F, "inprocess")
     for cfg, F in ctx.configs(["K1"]):
         # the router only sees what the set hands out: a member that is not drained starves its handler and never reports closure
         rset.rule_set_unix(ctx, cfg, F)
@@ -164,6 +169,8 @@ def check_C15(ctx):
         # "never delivered with attachments mis-assigned or left to hang the receiver": the per-message descriptor is last and every descriptor is classified by its own test
         send.rule_dedicated_last(ctx, cfg, F)
         ipcl.rule_split_classify(ctx, cfg, F)
+        # "any value that send accepts arrives with all of its attachments": the receiver offers the kernel its whole control buffer at every receive
+        scratch.rule_scratch_fresh(ctx, cfg, F)
     for cfg, F in ctx.configs(["K1", "K3"]):
         # where the transport sets no limit (in-process), any number of attachments is carried: the index on the wire is a full usize, never a narrower integer
         ipcl.rule_idx_pos(ctx, cfg, F)
@@ -189,6 +196,10 @@ def check_C18(ctx):
         send.rule_fd_bound(ctx, cfg, F)       # what is written into / expected from the receiver's control buffer stays within its capacity
         mem.rule_uaf_guard(ctx, cfg, F)
         mem.rule_map_guard(ctx, cfg, F)
+        mem.rule_copy_bound(ctx, cfg, F)
+        ctx.rule("COPY-BOUND").floor("struct_array_copies[%s]" % cfg, 1, cfg)
+        # received data has exactly the sent length: a first packet is taken for the whole message only when the header says so
+        recv.rule_trunc_err(ctx, cfg, F)
         ctx.rule("MAP-GUARD").floor("mmap_sites[%s]" % cfg, 1, cfg)
         ctx.rule("UAF-GUARD").floor("guards[%s]" % cfg, 1, cfg)
         with fd.domain("mem"):
@@ -214,6 +225,9 @@ def check_C10(ctx):
         ctx.rule("NB-MODE").floor("recvmsg_paths[%s]" % cfg, 3, cfg)
         recv.rule_followup_blocking(ctx, cfg, F)
         ctx.rule("FOLLOWUP-BLOCKING").floor("followup_reads[%s]" % cfg, 1, cfg)
+        # "neither call changes later behaviour": a receive hands back the receiver it was given, descriptor included
+        recv.rule_recv_keeps_fd(ctx, cfg, F)
+        ctx.rule("RECV-KEEPS-FD").floor("receive_methods[%s]" % cfg, 3, cfg)
         recv.rule_msg_commit(ctx, cfg, F)
         ctx.rule("MSG-COMMIT").floor("error_exits[%s]" % cfg, 1, cfg)
         recv.rule_timeout_arm(ctx, cfg, F)
@@ -240,7 +254,7 @@ def check_C03(ctx):
         recv.rule_err_map(ctx, cfg, F)
         ctx.rule("ERR-MAP").floor("conversions[%s]" % cfg, 2, cfg)
         recv.rule_disc_origin(ctx, cfg, F)
-        ctx.rule("DISC-ORIGIN").floor("disconnected_sites[%s]" % cfg, 2, cfg)
+        ctx.rule("DISC-ORIGIN").floor("disconnected_sites[%s]" % cfg, 1, cfg)
     for cfg, F in ctx.configs(["K1", "K2"]):
         recv.rule_zero_read(ctx, cfg, F)
         ctx.rule("ZERO-READ").floor("recvmsg_sites[%s]" % cfg, 1, cfg)
@@ -309,6 +323,8 @@ def check_C12(ctx):
         fd.rule_cloexec(ctx, cfg, F, None)
         # the per-message socket is connection-oriented: the death of the sender ends the follow-up reads (a datagram socket would wait forever)
         fd.rule_sock_type(ctx, cfg, F)
+        # a client that dies before its first message has arrived makes accept() report an error; it is not waited out (no second accept(2))
+        oss.rule_oss_samefd(ctx, cfg, F)
     ctx.assume("a dying sender closes both ends of its per-message socketpair (kernel), so the follow-up read returns 0")
 
 
@@ -417,11 +433,15 @@ def check_C02(ctx):
         # "whole": every socket keeps packet boundaries
         fd.rule_sock_type(ctx, cfg, F)
         ctx.rule("SOCK-TYPE").floor("socket_sites[%s]" % cfg, 3, cfg)
+        # "delivered": a message sent with more descriptors than the receiver's control buffer holds loses its per-message socket and is never completed
+        send.rule_fd_bound(ctx, cfg, F)
     for cfg, F in ctx.configs(["K1", "K3"]):
         # through a set (router, async): two live members under one id mix their messages
         rset.rule_set_id(ctx, cfg, F, "unix" if cfg == "K1" else "inprocess")
         # a routed message is handed on exactly once, whatever the consumer's queue looks like
         router.rule_forward_closure(ctx, cfg, F)
+        # ... and in the order the set reported it: the batch is not rearranged between select() and the handlers
+        router.rule_batch_order(ctx, cfg, F)
     for cfg, F in ctx.configs(["K1"]):
         # delivery through a receiver set: edge-triggered readiness means a member not drained loses (never delivers) messages
         rset.rule_set_unix(ctx, cfg, F)
@@ -473,6 +493,9 @@ def check_C06(ctx):
         # a member is reported closed exactly when its channel is: the closed class comes from a zero-length read of the member's own socket, and
         # an aborted multi-fragment message is not turned into an error that makes select() drop the rest of the batch
         recv.rule_closed_origin(ctx, cfg, F)
+        # a member's queued messages are read one after the other in one call: scratch values shared between those reads are rebuilt for each
+        scratch.rule_scratch_fresh(ctx, cfg, F)
+        ctx.rule("SCRATCH-FRESH").floor("receive_sites[%s]" % cfg, 1, cfg)
     for cfg, F in ctx.configs(["K3"]):
         rset.rule_set_id(ctx, cfg, F, "inprocess")
         ctx.rule("SET-ID").floor("next_sites[%s]" % cfg, 1, cfg)
@@ -532,6 +555,9 @@ def check_C04(ctx):
         send.rule_fd_bound(ctx, cfg, F)
         # a transferred receiver yields its whole backlog whichever receive flavour drains it: a ready poll reads
         recv.rule_timeout_arm(ctx, cfg, F)
+        # every receive offers the kernel the whole control buffer: a header reused from a previous receive has the previous message's control length in it
+        scratch.rule_scratch_fresh(ctx, cfg, F)
+        ctx.rule("SCRATCH-FRESH").floor("receive_sites[%s]" % cfg, 1, cfg)
     ctx.assume("the kernel passes descriptors in SCM_RIGHTS in array order")
 
 
@@ -569,6 +595,10 @@ def check_C01(ctx):
         send.rules_send_flow(ctx, cfg, F, "C09")
         ctx.rule("SEND-PROP").floor("fallible_calls[%s]" % cfg, 3, cfg)
         recv.rule_msg_commit(ctx, cfg, F)
+        # "does not depend on the system's socket buffer size": one size for every socket, the one the packet sizes were computed from
+        fd.rule_sock_buf(ctx, cfg, F)
+        # an accepted multi-packet value needs its per-message socket to arrive: one descriptor more than the receiver's control buffer holds and the kernel drops exactly that one
+        send.rule_fd_bound(ctx, cfg, F)
     for cfg, F in ctx.configs(["K1", "K3"]):
         # decoding is re-entrant: a receive nested in a Deserialize impl neither sees nor destroys the attachments of the value being decoded
         tls.rule_tls_restore(ctx, cfg, F)
@@ -596,6 +626,10 @@ def check_C05(ctx):
         ctx.rule("SHM-SIBLING").floor("create_shmem[%s]" % cfg, 1, cfg)
         ctx.rule("SHM-SIBLING").floor("store_creations[%s]" % cfg, 1, cfg)
         mem.rule_map_guard(ctx, cfg, F)
+        # a region keeps the descriptor of its backing object for as long as it lives: clones and transfers duplicate / pass that descriptor
+        fmodel = fd.build_model(F)
+        fd.rule_fd_move(ctx, cfg, F, fmodel)
+        fd.rule_close_owned(ctx, cfg, F, fmodel)
         with fd.domain("mem"):
             mmodel = fd.build_model(F)
             fd.rule_fd_path(ctx, cfg, F, mmodel, "ALLOC-PAIR", "every mmap result is unmapped exactly once or moved into the region type whose Drop unmaps it")
@@ -631,6 +665,10 @@ def check_C08(ctx):
         oss.rule_oss_samefd(ctx, cfg, F)
         oss.rule_oss_addr(ctx, cfg, F)
         ctx.rule("OSS-ADDR").floor("address_uses[%s]" % cfg, 2, cfg)
+        # the connection a name leads to carries messages of every size: its socket keeps the buffer size the packet sizes were computed for
+        fd.rule_sock_buf(ctx, cfg, F)
+        ctx.rule("SOCK-BUF").floor("sockopt_sites[%s]" % cfg, 1, cfg)
+        mem.rule_copy_bound(ctx, cfg, F)
         # the sender connect() hands out is a blocking channel: messages sent before accept() wait for room, they are not refused
         recv.rule_nb_pair(ctx, cfg, F)
         ctx.rule("OSS-SAMEFD").floor("accept_sites[%s]" % cfg, 1, cfg)
@@ -700,6 +738,8 @@ def check_C19(ctx):
     for cfg, F in ctx.configs(["K1", "K3"]):
         recv.rule_err_map(ctx, cfg, F)
         recv.rule_mode_table(ctx, cfg, F)
+        # 'empty' is 'empty' on every transport: the would-block answer of a polling receive is converted directly, in one place per layer
+        recv.rule_try_conv(ctx, cfg, F)
         tls.rule_tls_restore(ctx, cfg, F)
         rset.rule_set_id(ctx, cfg, F, "unix" if cfg == "K1" else "inprocess")
         ipcl.rule_idx_pos(ctx, cfg, F)
